@@ -56,6 +56,12 @@ pub fn check(info: &LangInfo, text: &[u8], xt: &XTree, ranges: Option<&[Range]>)
         return out;
     }
     let mut covered = vec![false; text.len()];
+    // bottom-up summaries in one pass (the explicit tree is in pre-order: children have larger indices than their parent)
+    let mut sub_err_of: Vec<bool> = n.iter().map(|x| x.is_error || x.missing).collect();
+    let mut size_of: Vec<usize> = vec![1; n.len()];
+    for i in (0..n.len()).rev() {
+        for &c in &n[i].children { if sub_err_of[c] { sub_err_of[i] = true; } size_of[i] += size_of[c]; }
+    }
     for (i, nd) in n.iter().enumerate() {
         if nd.start > nd.end || nd.end > text.len() {
             out.push(f("node-outside-text", format!("node #{} {}", i, xt.brief(i))));
@@ -72,14 +78,7 @@ pub fn check(info: &LangInfo, text: &[u8], xt: &XTree, ranges: Option<&[Range]>)
         }
         if nd.missing && nd.start != nd.end { out.push(f("missing-not-empty", format!("node #{} {}", i, xt.brief(i)))); }
         // has_error exactly when it or a descendant is ERROR or MISSING
-        let mut sub_err = nd.is_error || nd.missing;
-        if !sub_err {
-            let mut stack: Vec<usize> = nd.children.clone();
-            while let Some(c) = stack.pop() {
-                if n[c].is_error || n[c].missing { sub_err = true; break; }
-                stack.extend_from_slice(&n[c].children);
-            }
-        }
+        let sub_err = sub_err_of[i];
         if nd.has_error != sub_err {
             let fp = if nd.is_error && nd.children.is_empty() { "has-error-false-on-error-leaf" } else { "has-error-mismatch" };
             out.push(f(fp, format!("node #{} {} has_error={} but subtree contains ERROR/MISSING={}", i, xt.brief(i), nd.has_error, sub_err)));
@@ -87,7 +86,7 @@ pub fn check(info: &LangInfo, text: &[u8], xt: &XTree, ranges: Option<&[Range]>)
         if nd.adv_child_count != nd.children.len() { out.push(f("child-count", format!("node #{} child_count()={} enumerated={}", i, nd.adv_child_count, nd.children.len()))); }
         let named = nd.children.iter().filter(|&&c| n[c].named).count();
         if nd.adv_named_child_count != named { out.push(f("named-child-count", format!("node #{} named_child_count()={} enumerated={}", i, nd.adv_named_child_count, named))); }
-        let sz = xt.subtree_size(i);
+        let sz = size_of[i];
         if nd.adv_descendant_count != sz { out.push(f("descendant-count", format!("node #{} descendant_count()={} enumerated={}", i, nd.adv_descendant_count, sz))); }
         if nd.children.is_empty() {
             for b in nd.start..nd.end { covered[b] = true; }
